@@ -174,6 +174,22 @@ def validateKeys (cfg : Cfg) (db : DB) (m : KeysMsg) : Verdict :=
       else if cfg.maxKeys < m.keys.length then .reject
       else if checkKeys db m.eon none m.keys then .accept else .reject
 
+/-- libp2p's three verdicts plus anything else a validator function might return -/
+inductive V3 where
+  | accept | reject | ignore | unknown
+deriving Repr, DecidableEq
+
+/-- `ValidatorRegistry.GetCombinedValidator`: the first reject (or unknown value) wins, otherwise ignore if
+    any validator ignored, otherwise accept -/
+def combineFrom (ignored : Bool) : List V3 → V3
+  | [] => if ignored then .ignore else .accept
+  | .accept :: rest => combineFrom ignored rest
+  | .reject :: _ => .reject
+  | .ignore :: rest => combineFrom true rest
+  | .unknown :: _ => .reject
+
+def combine (vs : List V3) : V3 := combineFrom false vs
+
 /-- the receive path: a message is handled only when the combined validator accepts -/
 def receive {σ μ out : Type} (validate : σ → μ → Verdict) (handle : σ → μ → σ × List out) (s : σ) (m : μ) :
     σ × List out :=
